@@ -9,7 +9,7 @@ PID = 'C16'
 RULE = ('envelope generator: {05, 06, damaged, no} header x {RS EOT, RS only, EOT only, no} trailer x bodies of length 0..40 from '
         'every alphabet x macro flag x FNC1 flag x mode subsets, each encoded then decoded (rt); non-trivial = message with a '
         'header or trailer fragment')
-THEOREMS = 'C16_first_codeword, C16_detection, C16_strip_sets_input, C16_stream_shape, C16_decoder_macro05, C16_decoder_macro06, C16_decoder_fnc1, C16_macro_roundtrip_ascii_only, C16_fnc1_roundtrip_ascii_only'
+THEOREMS = 'C16_first_codeword, C16_detection, C16_strip_sets_input, C16_stream_shape, C16_decoder_macro05, C16_decoder_macro06, C16_decoder_fnc1, C16_macro_roundtrip_ascii_only, C16_fnc1_roundtrip_ascii_only, C16_macro_roundtrip_ab, C16_fnc1_roundtrip_ab'
 ASSUMPTIONS = ['the sort order of remove_hopeless_cases is taken from the implementation (hook trace)']
 
 
